@@ -150,6 +150,7 @@ namespace pika::detail {
 #if defined(PIKA_VERIF)
             PIKA_VERIF_POINT(806, this);
             PIKA_VERIF_POINT(701, this, 0, 0);    // wait: suspend returned, before re-locking (no lock held)
+            PIKA_VERIF_POINT(916, this);    // woken, about to re-acquire the caller's lock
 #endif
         }
 
